@@ -211,6 +211,24 @@ def check_term_value(rule, db, cfgname, cls, sign_num, bosonic):
         raise AnalysisBroken("%s::Term::operator()(tau,beta): expected one return" % cls)
     rk = ctx2.key(t2.nodes[rets[0]]["sub"])
     site = cls + "::Term::operator()(tau,beta)"
+    # conditionals buried inside the expression (numerator / denominator chosen separately by the same test, possibly through a
+    # bool local): split on the one condition they share and treat the two specialisations as the two branches
+    def _conds(k, acc):
+        if isinstance(k, tuple):
+            if k[0] == "cond" and len(k) == 4:
+                acc.add(k[1])
+            for x in k:
+                _conds(x, acc)
+        return acc
+    cs = _conds(rk, set())
+    if rk[0] != "cond" and len(cs) == 1:
+        c0 = list(cs)[0]
+        pick = lambda which: key_subst(rk, lambda y: (y[2] if which else y[3]) if (y[0] == "cond" and len(y) == 4 and y[1] == c0) else None)
+        rk = ("cond", c0, pick(True), pick(False))
+    elif rk[0] == "cond" and len(cs) > 1:
+        raise AnalysisBroken("%s::Term::operator()(tau,beta): nested conditionals on different conditions" % cls)
+    elif rk[0] != "cond" and len(cs) > 1:
+        raise AnalysisBroken("%s::Term::operator()(tau,beta): several different conditions inside the value" % cls)
     single = rk[0] != "cond"
     if single:
         # one closed form for both signs of the pole: it must be the inverse transform AND overflow-safe for P > 0 and P < 0
@@ -311,40 +329,30 @@ def check_sum_over_parts(rule, db, cfgname, qn, nparams, ptypes, part_call_args,
     cls = qn.rsplit("::", 1)[0]
     site = "%s(%s)" % (qn, ",".join(p["tw"] for p in g.params))
     probs = []
-    loops = [j for j, n in g.walk(g.body) if n["k"] == "for"]
-    acc = None
-    for Lp in loops:
-        shp = loop_shape(g, ctx, Lp)
-        if shp["kind"] == "iter" and shp["bound"] == fld(cls + "::parts") and not shp["exits"]:
-            for j, n in g.walk(shp["body"]):
-                if (n["k"] == "call" and n["ck"] == "op" and n.get("op") == "+=") or (n["k"] == "bin" and n["op"] == "+="):
-                    acc = (j, shp)
-    if acc is None:
-        probs.append("no loop over all parts accumulating with +=")
+    from pv.loops import is_element, sum_over
+    parts_ = fld(cls + "::parts")
+    so = sum_over(g, ctx, parts_)
+    if so["status"] == "unknown":
+        raise AnalysisBroken("%s: the sum over the parts is written in a form that is not analysed (%s)" % (qn, so["why"]))
+    if so["status"] == "partial":
+        probs.append("not every part contributes: %s" % so["why"])
     else:
-        j, shp = acc
-        n = g.nodes[j]
-        lhs = n["args"][0] if n["k"] == "call" else n["l"]
-        rhs = n["args"][1] if n["k"] == "call" else n["r"]
-        rk = ctx.key(rhs, inline=False)
-        it = shp["var"]
-        part = [("un", "*", ("op", "*", it)), ("op", "*", ("op", "*", it)), ("un", "*", ("un", "*", it))]
+        rk = ctx.key(so["term"])
         want_args = tuple(("param", p["d"], p["n"]) for p in g.params)
         okcall = False
-        if rk[0] == "op" and rk[1] == "()" and rk[2] in part and tuple(rk[3:]) == want_args:
+        # part(args)  via operator()  /  part.of_tau(args)  on the visited element (through pointers / references)
+        if rk[0] == "op" and rk[1] == "()" and is_element(rk[2], so["loop"], parts_) and tuple(rk[3:]) == want_args:
             okcall = True
-        if rk[0] == "mcall" and rk[2] in [("op", "*", it), ("un", "*", it)] and tuple(rk[3:]) == want_args and rk[1].endswith("::" + part_call_args):
+        if rk[0] == "mcall" and is_element(rk[2], so["loop"], parts_) and tuple(rk[3:]) == want_args and rk[1].endswith("::" + part_call_args):
             okcall = True
         if not okcall:
-            probs.append("the contribution added per part is %s, expected the part evaluated at the same argument(s)" % g.s(rhs)[:80])
-        lv = ctx.key(lhs, inline=False)
-        dv = ctx.decls.get(lv[1]) if lv[0] == "var" else None
-        if not (dv and dv.get("init") is not None and ctx.key(dv["init"]) in (("lit", 0), ("ctor", "std::complex", ("lit", 0), ("lit", 0)), ("ctor", "std::complex", ("lit", 0)))):
+            probs.append("the contribution added per part is %s, expected the part evaluated at the same argument(s)" % g.s(so["term"])[:80])
+        if so["filtered"]:
+            probs.append("some parts are skipped (an `if` / `continue` bypasses the accumulation)")
+        if not so["zero"]:
             probs.append("the accumulator does not start at 0")
-        else:
-            rets = [r for r, m in g.walk(g.body) if m["k"] == "return" and m.get("sub") is not None and ctx.key(m["sub"], inline=False)[:2] == lv[:2]]
-            if not rets:
-                probs.append("the accumulated value is not what is returned")
+        elif not so["returned"]:
+            probs.append("the accumulated value is not what is returned")
     # vanishing: return 0 exactly under Vanishing
     van = fld(cls + "::Vanishing")
     for r, m in g.walk(g.body):
